@@ -49,45 +49,54 @@ use palette::white_point::D65;
 use palette::{Hsl, Hsluv, Hsv, Hwb, Lchuv, Luv, Okhsl, Okhsv, Okhwb, Oklab, Xyz};
 use std::collections::BTreeMap;
 
-type Lines<'a> = Option<&'a mut Vec<String>>;
+pub(crate) type Lines<'a> = Option<&'a mut Vec<String>>;
 
 /// one directly implemented edge; optionally records the protocol line the Lean driver replays through the model
-fn step<S, D, T: Fl>(sn: &str, dn: &str, a: [T; 3], lines: &mut Lines) -> [T; 3]
+pub(crate) fn step<S, D, T: Fl>(sn: &str, dn: &str, a: [T; 3], lines: &mut Lines) -> [T; 3]
 where S: ArrayCast<Array = [T; 3]>, D: ArrayCast<Array = [T; 3]> + FromColorUnclamped<S> {
     let d: [T; 3] = cast::into_array(D::from_color_unclamped(cast::from_array::<S>(a)));
     if let Some(l) = lines { l.push(format!("conv {} {} | {} | {}", sn, dn, hx_list(&a), hx_list(&d))); }
     d
 }
-fn one<S, D, T: Fl>(a: [T; 3]) -> [T; 3]
+pub(crate) fn one<S, D, T: Fl>(a: [T; 3]) -> [T; 3]
 where S: ArrayCast<Array = [T; 3]>, D: ArrayCast<Array = [T; 3]> + FromColorUnclamped<S> {
     cast::into_array(D::from_color_unclamped(cast::from_array::<S>(a)))
 }
-fn same_bits<T: Fl>(a: &[T; 3], b: &[T; 3]) -> bool { (0..3).all(|i| a[i].bits64() == b[i].bits64() || (a[i].to64().is_nan() && b[i].to64().is_nan())) }
+pub(crate) fn same_bits<T: Fl>(a: &[T; 3], b: &[T; 3]) -> bool { (0..3).all(|i| a[i].bits64() == b[i].bits64() || (a[i].to64().is_nan() && b[i].to64().is_nan())) }
 
 #[derive(Clone, Copy, PartialEq, Debug)]
-enum Kind { Hex, Hsluv, Ok }
+pub(crate) enum Kind { Hex, Hsluv, Ok }
 
 /// a conversion as the property observes it (one `from_color_unclamped` call) and, when lines are requested, the same conversion replayed
 /// edge by edge (each edge = one `conv` line for the model); returns (result of the single call, chain agrees bit for bit)
-type Conv<T> = Box<dyn Fn([T; 3], &mut Lines) -> ([T; 3], bool) + Send + Sync>;
+pub(crate) type Conv<T> = Box<dyn Fn([T; 3], &mut Lines) -> ([T; 3], bool) + Send + Sync>;
 
-struct Space<T: Fl> {
-    name: &'static str,
-    kind: Kind,
+pub(crate) struct Space<T: Fl> {
+    pub(crate) name: &'static str,
+    pub(crate) kind: Kind,
     /// range of the saturation-like / lightness-like components (1 or 100)
-    scale: f64,
-    hwb: bool,
+    pub(crate) scale: f64,
+    pub(crate) hwb: bool,
     /// documented upper bound slack (Okhsv: MAX_SRGB_SATURATION_INACCURACY)
-    slack: f64,
-    /// [Srgb, LinSrgb]
-    to_rgb: [Conv<T>; 2],
-    from_rgb: [Conv<T>; 2],
+    pub(crate) slack: f64,
+    /// the two RGB targets of the space ([Srgb, LinSrgb] here; other standards on the same primaries in `c15_more.rs`)
+    pub(crate) targets: [Target; 2],
+    pub(crate) to_rgb: [Conv<T>; 2],
+    pub(crate) from_rgb: [Conv<T>; 2],
 }
-const TARGETS: [&str; 2] = ["Srgb", "LinSrgb"];
+/// an RGB standard as a target: its name in clause names and its transfer function as an f64 reference (both monotone), used only to
+/// judge a colour in linear light where the tolerance is declared there
+#[derive(Clone, Copy)]
+pub(crate) struct Target { pub(crate) name: &'static str, pub(crate) eotf: fn(f64) -> f64, pub(crate) oetf: fn(f64) -> f64 }
+/// the space's own name; `c15_more.rs` runs the same spaces in other configurations as `Name@configuration`
+pub(crate) fn base_name(n: &str) -> &str { n.split('@').next().unwrap_or(n) }
+pub(crate) fn ident(x: f64) -> f64 { x }
+pub(crate) fn srgb_oetf(x: f64) -> f64 { if x <= 0.0031308 { 12.92 * x } else { 1.055 * x.powf(1.0 / 2.4) - 0.055 } }
+pub(crate) const TARGETS: [Target; 2] = [Target { name: "Srgb", eotf: srgb_eotf, oetf: srgb_oetf }, Target { name: "LinSrgb", eotf: ident, oetf: ident }];
 
 /// thread-local accumulator, merged into `Out` by the main thread
 #[derive(Default)]
-struct Acc {
+pub(crate) struct Acc {
     evals: u64,
     fail_total: u64,
     fails: Vec<(String, String)>,
@@ -97,7 +106,7 @@ struct Acc {
     lines: Vec<String>,
 }
 impl Acc {
-    fn check(&mut self, ok: bool, clause: &str, detail: impl FnOnce() -> String) {
+    pub(crate) fn check(&mut self, ok: bool, clause: &str, detail: impl FnOnce() -> String) {
         self.evals += 1;
         if !ok {
             self.fail_total += 1;
@@ -106,11 +115,11 @@ impl Acc {
             if *n < 4 { *n += 1; self.fails.push((clause.to_string(), detail())); }
         }
     }
-    fn maxi(&mut self, key: &str, v: f64) {
+    pub(crate) fn maxi(&mut self, key: &str, v: f64) {
         match self.maxima.get_mut(key) { Some(e) => { if v > *e || v.is_nan() { *e = v; } } None => { self.maxima.insert(key.to_string(), v); } }
     }
-    fn count(&mut self, key: &str) { *self.counts.entry(key.to_string()).or_insert(0) += 1; }
-    fn merge_into(self, out: &mut Out) {
+    pub(crate) fn count(&mut self, key: &str) { *self.counts.entry(key.to_string()).or_insert(0) += 1; }
+    pub(crate) fn merge_into(self, out: &mut Out) {
         let kept = self.fails.len() as u64;
         for (c, d) in self.fails { out.check(false, &c, || d); }
         out.oracle_evals += self.evals - kept;
@@ -121,19 +130,19 @@ impl Acc {
     }
 }
 
-fn srgb_eotf(x: f64) -> f64 { if x <= 0.04045 { x / 12.92 } else { ((x + 0.055) / 1.055).powf(2.4) } }
+pub(crate) fn srgb_eotf(x: f64) -> f64 { if x <= 0.04045 { x / 12.92 } else { ((x + 0.055) / 1.055).powf(2.4) } }
 /// largest excursion of a triple outside [0,1] (NaN if any component is NaN)
-fn excess(v: &[f64; 3]) -> f64 { if v.iter().any(|x| x.is_nan()) { f64::NAN } else { v.iter().fold(0.0f64, |m, &x| m.max(-x).max(x - 1.0)) } }
-fn lin_of(target: usize, rgb: &[f64; 3]) -> [f64; 3] { if target == 0 { [srgb_eotf(rgb[0]), srgb_eotf(rgb[1]), srgb_eotf(rgb[2])] } else { *rgb } }
+pub(crate) fn excess(v: &[f64; 3]) -> f64 { if v.iter().any(|x| x.is_nan()) { f64::NAN } else { v.iter().fold(0.0f64, |m, &x| m.max(-x).max(x - 1.0)) } }
+pub(crate) fn lin_of(target: &Target, rgb: &[f64; 3]) -> [f64; 3] { [(target.eotf)(rgb[0]), (target.eotf)(rgb[1]), (target.eotf)(rgb[2])] }
 
 /// rounding of the hue vector (cos h, sin h) / (a/C, b/C) in T against the two case conditions of `max_saturation` (coefficients ≤ 1.9)
 fn case_margin<T: Fl>() -> f64 { 64.0 * T::eps() }
 
 /// the declared tolerance of a space, in the RGB representation it is declared in (Hex: the target itself; others: linear light)
-fn tol_of<T: Fl>(kind: Kind) -> f64 { match kind { Kind::Hex => 4.0 * T::eps(), Kind::Hsluv => 2e-4, Kind::Ok => 1e-3 } }
+pub(crate) fn tol_of<T: Fl>(kind: Kind) -> f64 { match kind { Kind::Hex => 4.0 * T::eps(), Kind::Hsluv => 2e-4, Kind::Ok => 1e-3 } }
 
 /// known-finding classification of a *cylindrical* colour (hue, s-like, l-like); `None` = every excursion is a violation
-fn known_fwd<T: Fl>(sp: &Space<T>, x: &[f64; 3]) -> Option<&'static str> {
+pub(crate) fn known_fwd<T: Fl>(sp: &Space<T>, x: &[f64; 3]) -> Option<&'static str> {
     match sp.kind {
         Kind::Ok => { let r = x[0].to_radians(); if spec::blue_gap(r.cos(), r.sin(), case_margin::<T>()) { Some("blue-hue-gap-C15") } else { None } }
         // the two guards of the HSLuv reference (hsluv.org `lchToHsluv` / `hsluvToLch`): L > 99.9999999 or L < 0.00000001
@@ -193,16 +202,16 @@ fn axis<T: Fl>(g: usize, scale: f64) -> Vec<T> {
     v
 }
 
-fn forward_chunk<T: Fl + Send + Sync>(sp: &Space<T>, hues: &[(usize, T)], g: usize, stride: usize) -> Acc {
+pub(crate) fn forward_chunk<T: Fl + Send + Sync>(sp: &Space<T>, hues: &[(usize, T)], g: usize, stride: usize) -> Acc {
     let mut acc = Acc::default();
     let ax = axis::<T>(g, sp.scale);
     let tol = tol_of::<T>(sp.kind);
     let n = ax.len();
     let known_name = match sp.kind { Kind::Ok => "blue-hue-gap-C15", Kind::Hsluv => "hsluv-pole-C15", Kind::Hex => "" };
     // [target][0 = ordinary, 1 = inside a listed finding's region]: clause names, keys and running maxima (hot loop: no allocation)
-    let clause: Vec<[String; 3]> = (0..2).map(|t| [format!("gamut:{}->{}:{}", sp.name, TARGETS[t], T::TAG), format!("{}:gamut:{}->{}:{}", known_name, sp.name, TARGETS[t], T::TAG), format!("okhsl-white-nan-C15:gamut:{}->{}:{}", sp.name, TARGETS[t], T::TAG)]).collect();
-    let mkey: Vec<[String; 3]> = (0..2).map(|t| [format!("gamut-excess:{}->{}:{}", sp.name, TARGETS[t], T::TAG), format!("gamut-excess-in-{}:{}->{}:{}", known_name, sp.name, TARGETS[t], T::TAG), format!("gamut-excess-in-okhsl-white-nan-C15:{}->{}:{}", sp.name, TARGETS[t], T::TAG)]).collect();
-    let route: Vec<String> = (0..2).map(|t| format!("derived-route-is-edge-chain:{}->{}:{}", sp.name, TARGETS[t], T::TAG)).collect();
+    let clause: Vec<[String; 3]> = (0..2).map(|t| [format!("gamut:{}->{}:{}", sp.name, sp.targets[t].name, T::TAG), format!("{}:gamut:{}->{}:{}", known_name, sp.name, sp.targets[t].name, T::TAG), format!("okhsl-white-nan-C15:gamut:{}->{}:{}", sp.name, sp.targets[t].name, T::TAG)]).collect();
+    let mkey: Vec<[String; 3]> = (0..2).map(|t| [format!("gamut-excess:{}->{}:{}", sp.name, sp.targets[t].name, T::TAG), format!("gamut-excess-in-{}:{}->{}:{}", known_name, sp.name, sp.targets[t].name, T::TAG), format!("gamut-excess-in-okhsl-white-nan-C15:{}->{}:{}", sp.name, sp.targets[t].name, T::TAG)]).collect();
+    let route: Vec<String> = (0..2).map(|t| format!("derived-route-is-edge-chain:{}->{}:{}", sp.name, sp.targets[t].name, T::TAG)).collect();
     let mut mx = [[f64::NEG_INFINITY; 3]; 2];
     let (mut n_grid, mut n_bound) = (0u64, 0u64);
     for &(hi, h) in hues {
@@ -214,16 +223,16 @@ fn forward_chunk<T: Fl + Send + Sync>(sp: &Space<T>, hues: &[(usize, T)], g: usi
                 let idx = (hi * n + i) * n + j;
                 let emit = idx % stride == 0;
                 // Okhsl lightness strictly between 1 - eps(T) and 1 (i.e. the one value next below 1): `toe_inv` rounds to exactly 1 while the `lightness == 1` guard did not fire (finding okhsl-white-nan)
-                let k = if sp.name == "Okhsl" && x64[2] < 1.0 && x64[2] > 1.0 - T::eps() { 2 } else if known_fwd(sp, &x64).is_some() { 1 } else { 0 };
+                let k = if base_name(sp.name) == "Okhsl" && x64[2] < 1.0 && x64[2] > 1.0 - T::eps() { 2 } else if known_fwd(sp, &x64).is_some() { 1 } else { 0 };
                 for t in 0..2 {
                     let mut local: Vec<String> = vec![];
                     let mut lines: Lines = if emit { Some(&mut local) } else { None };
                     let (rgb, chain_ok) = (sp.to_rgb[t])(x, &mut lines);
                     if emit { acc.lines.append(&mut local); acc.check(chain_ok, &route[t], || format!("{:?}: the single from_color_unclamped call and the chain of hand-written edges differ", x)); }
                     let r64 = to64(&rgb);
-                    let ex = if sp.kind == Kind::Hex { excess(&r64) } else { excess(&lin_of(t, &r64)) };
+                    let ex = if sp.kind == Kind::Hex { excess(&r64) } else { excess(&lin_of(&sp.targets[t], &r64)) };
                     if ex > mx[t][k] || ex.is_nan() { mx[t][k] = ex; }
-                    acc.check(ex <= tol, &clause[t][k], || format!("{}{:?} -> {} {:?} (excess {:e}, tolerance {:e})", sp.name, x, TARGETS[t], rgb, ex, tol));
+                    acc.check(ex <= tol, &clause[t][k], || format!("{}{:?} -> {} {:?} (excess {:e}, tolerance {:e})", sp.name, x, sp.targets[t].name, rgb, ex, tol));
                 }
                 n_grid += 1;
                 if i == 0 || j == 0 || i == g || j == g { n_bound += 1; }
@@ -236,7 +245,7 @@ fn forward_chunk<T: Fl + Send + Sync>(sp: &Space<T>, hues: &[(usize, T)], g: usi
     acc
 }
 
-fn parallel<I: Sync, F: Fn(&[I]) -> Acc + Sync>(items: &[I], threads: usize, f: F) -> Vec<Acc> {
+pub(crate) fn parallel<I: Sync, F: Fn(&[I]) -> Acc + Sync>(items: &[I], threads: usize, f: F) -> Vec<Acc> {
     let chunk = (items.len() + threads - 1) / threads.max(1);
     if chunk == 0 { return vec![]; }
     std::thread::scope(|s| {
@@ -259,7 +268,7 @@ fn hue_list<T: Fl>(sp: &Space<T>, n_hues: usize) -> Vec<(usize, T)> {
     v.into_iter().enumerate().collect()
 }
 
-fn forward<T: Fl + Send + Sync>(out: &mut Out, sp: &Space<T>, n_hues: usize, g: usize, stride: usize, threads: usize) {
+pub(crate) fn forward<T: Fl + Send + Sync>(out: &mut Out, sp: &Space<T>, n_hues: usize, g: usize, stride: usize, threads: usize) {
     let hues = hue_list(sp, n_hues);
     out.count_n(&format!("cls:hues:{}:{}", sp.name, T::TAG), hues.len() as u64);
     for acc in parallel(&hues, threads, |c| forward_chunk(sp, c, g, stride)) { acc.merge_into(out); }
@@ -280,13 +289,13 @@ fn forward<T: Fl + Send + Sync>(out: &mut Out, sp: &Space<T>, n_hues: usize, g: 
             if sp.hwb && !(a + b <= sp.scale) { continue; }
             let x: [T; 3] = [T::of(h), T::of(a), T::of(b)];
             let x64 = to64(&x);
-            if known_fwd(sp, &x64).is_some() || (sp.name == "Okhsl" && x64[2] < 1.0 && x64[2] > 1.0 - T::eps()) { continue; }
+            if known_fwd(sp, &x64).is_some() || (base_name(sp.name) == "Okhsl" && x64[2] < 1.0 && x64[2] > 1.0 - T::eps()) { continue; }
             for t in 0..2 {
                 let (rgb, _) = (sp.to_rgb[t])(x, &mut None);
                 let r64 = to64(&rgb);
-                let ex = if sp.kind == Kind::Hex { excess(&r64) } else { excess(&lin_of(t, &r64)) };
+                let ex = if sp.kind == Kind::Hex { excess(&r64) } else { excess(&lin_of(&sp.targets[t], &r64)) };
                 if ex > worst || ex.is_nan() { worst = ex; }
-                acc.check(ex <= tol, &format!("gamut-near-corner:{}->{}:{}", sp.name, TARGETS[t], T::TAG), || format!("{}{:?} (next to the cube corner {:?}) -> {} {:?} (excess {:e}, tolerance {:e})", sp.name, x, c, TARGETS[t], rgb, ex, tol));
+                acc.check(ex <= tol, &format!("gamut-near-corner:{}->{}:{}", sp.name, sp.targets[t].name, T::TAG), || format!("{}{:?} (next to the cube corner {:?}) -> {} {:?} (excess {:e}, tolerance {:e})", sp.name, x, c, sp.targets[t].name, rgb, ex, tol));
             }
         } } }
         acc.count(&format!("cls:corner-neighbourhood:{}:{}", sp.name, T::TAG));
@@ -320,17 +329,16 @@ fn rgb_sources(rng: &mut Rng, lattice: &[f64], n_rand: usize) -> Vec<[f64; 3]> {
 /// existence statement; the search is finite and fixed).  The fallback candidates matter for Okhsl only: around hue 100° (between the red
 /// = 1 and green = 1 faces, lightness ≈ 0.93) the single Halley step of `find_gamut_intersection` lands up to 5e-3 (in saturation) on either
 /// side of the surface from one hue to the next, so that the nearest in-bounds colour is not always the one towards gray.
-fn witness<T: Fl>(kind: Kind, t: usize, src: &[f64; 3], tol: f64, cand: usize) -> [T; 3] {
+fn witness<T: Fl>(kind: Kind, t: &Target, src: &[f64; 3], tol: f64, cand: usize) -> [T; 3] {
     let lin = if kind == Kind::Hex { *src } else { lin_of(t, src) };
     let w: [f64; 3] = if cand == 0 { [tol + lin[0] * (1.0 - 2.0 * tol), tol + lin[1] * (1.0 - 2.0 * tol), tol + lin[2] * (1.0 - 2.0 * tol)] } else {
         let k = cand - 1; let h = if k < 27 { tol } else { 0.5 * tol }; let k = k % 27;
         let d = [(k % 3) as f64 - 1.0, ((k / 3) % 3) as f64 - 1.0, ((k / 9) % 3) as f64 - 1.0];
         [(lin[0] + h * d[0]).clamp(0.0, 1.0), (lin[1] + h * d[1]).clamp(0.0, 1.0), (lin[2] + h * d[2]).clamp(0.0, 1.0)]
     };
-    if kind == Kind::Hex || t == 1 { [T::of(w[0]), T::of(w[1]), T::of(w[2])] }
-    else { // tolerance declared in linear light, source encoded: re-encode (f64 reference OETF)
-        let oetf = |x: f64| if x <= 0.0031308 { 12.92 * x } else { 1.055 * x.powf(1.0 / 2.4) - 0.055 };
-        [T::of(oetf(w[0])), T::of(oetf(w[1])), T::of(oetf(w[2]))]
+    if kind == Kind::Hex { [T::of(w[0]), T::of(w[1]), T::of(w[2])] }
+    else { // tolerance declared in linear light, source encoded: re-encode (f64 reference OETF; the identity for a linear target)
+        [T::of((t.oetf)(w[0])), T::of((t.oetf)(w[1])), T::of((t.oetf)(w[2]))]
     }
 }
 const N_WITNESS: usize = 55;
@@ -348,9 +356,9 @@ fn reverse_chunk<T: Fl + Send + Sync>(sp: &Space<T>, srcs: &[(usize, [f64; 3])],
         let s64 = to64(&src);
         let emit = si % stride == 0;
         for t in 0..2 {
-            let lin_src = lin_of(t, &s64);
+            let lin_src = lin_of(&sp.targets[t], &s64);
             let known = known_rev(sp, &lin_src);
-            let key = format!("{}->{}:{}", TARGETS[t], sp.name, T::TAG);
+            let key = format!("{}->{}:{}", sp.targets[t].name, sp.name, T::TAG);
             let mut local: Vec<String> = vec![];
             let mut lines: Lines = if emit { Some(&mut local) } else { None };
             let (x, chain_ok) = (sp.from_rgb[t])(src, &mut lines);
@@ -359,21 +367,21 @@ fn reverse_chunk<T: Fl + Send + Sync>(sp: &Space<T>, srcs: &[(usize, [f64; 3])],
             // back to RGB (unclamped, as the property says)
             let (back, chain_ok2) = (sp.to_rgb[t])(x, &mut lines);
             acc.lines.append(&mut local);
-            if emit { acc.check(chain_ok2, &format!("derived-route-is-edge-chain:{}->{}:{}", sp.name, TARGETS[t], T::TAG), || format!("{:?}: the single from_color_unclamped call and the chain of hand-written edges differ", x)); }
-            let lin_back = lin_of(t, &to64(&back));
+            if emit { acc.check(chain_ok2, &format!("derived-route-is-edge-chain:{}->{}:{}", sp.name, sp.targets[t].name, T::TAG), || format!("{:?}: the single from_color_unclamped call and the chain of hand-written edges differ", x)); }
+            let lin_back = lin_of(&sp.targets[t], &to64(&back));
             let e_rt = if lin_back.iter().any(|v| v.is_nan()) { f64::NAN } else { (0..3).fold(0.0f64, |m, i| m.max((lin_back[i] - lin_src[i]).abs())) };
             let over = overshoot(sp, &x64);
             let finite = x.iter().all(|v| v.finite());
             let pre = match known { Some(k) => format!("{}:", k), None => String::new() };
             let sfx = match known { Some(k) => format!("-in-{}", k), None => String::new() };
             // ---- the components are numbers
-            let hsl_top = sp.name == "Hsl" && !finite && { let (mx, mn) = (s64.iter().cloned().fold(0.0, f64::max), s64.iter().cloned().fold(1.0, f64::min)); mx == 1.0 && mn < 1.0 && T::of(mx + mn).to64() == 2.0 };
-            if hsl_top { acc.check(finite, &format!("hsl-white-inf-C15:finite:{}", key), || format!("{} {:?} -> Hsl{:?}: max = 1 and max + min rounds to 2; `d / (2 - sum)` is d / 0 there (repaired by 4f36dd5: `(1 - max) + (1 - min)`)", TARGETS[t], src, x)); }
-            else { acc.check(finite, &format!("{}finite:{}", pre, key), || format!("{} {:?} -> {}{:?}", TARGETS[t], src, sp.name, x)); }
+            let hsl_top = base_name(sp.name) == "Hsl" && !finite && { let (mx, mn) = (s64.iter().cloned().fold(0.0, f64::max), s64.iter().cloned().fold(1.0, f64::min)); mx == 1.0 && mn < 1.0 && T::of(mx + mn).to64() == 2.0 };
+            if hsl_top { acc.check(finite, &format!("hsl-white-inf-C15:finite:{}", key), || format!("{} {:?} -> Hsl{:?}: max = 1 and max + min rounds to 2; `d / (2 - sum)` is d / 0 there (repaired by 4f36dd5: `(1 - max) + (1 - min)`)", sp.targets[t].name, src, x)); }
+            else { acc.check(finite, &format!("{}finite:{}", pre, key), || format!("{} {:?} -> {}{:?}", sp.targets[t].name, src, sp.name, x)); }
             // ---- within the documented bounds up to the same tolerance (see `witness`)
             let (mut over_w, mut w, mut xw, mut tried) = (f64::INFINITY, src, x, 0usize);
             for cand in 0..N_WITNESS {
-                let wc = witness::<T>(sp.kind, t, &s64, tol, cand);
+                let wc = witness::<T>(sp.kind, &sp.targets[t], &s64, tol, cand);
                 let (xc, _) = (sp.from_rgb[t])(wc, &mut None);
                 let o = overshoot(sp, &to64(&xc));
                 tried = cand + 1;
@@ -383,30 +391,30 @@ fn reverse_chunk<T: Fl + Send + Sync>(sp: &Space<T>, srcs: &[(usize, [f64; 3])],
             }
             if tried > 1 { acc.count(&format!("cls:bounds-witness-not-towards-gray:{}", key)); }
             acc.maxi(&format!("bounds-overshoot-of-witness{}:{}", sfx, key), over_w);
-            acc.check(over_w <= 2.0 * T::eps(), &format!("{}bounds:{}", pre, key), || format!("{} {:?} -> {}{:?} ({:e} of the component range outside the documented bounds), and none of the {} colours within {:e} of it in every {} channel is within the bounds either; closest: {:?} -> {}{:?}, still {:e} outside", TARGETS[t], src, sp.name, x, over, N_WITNESS, tol, if sp.kind == Kind::Hex { "RGB" } else { "linear RGB" }, w, sp.name, xw, over_w));
+            acc.check(over_w <= 2.0 * T::eps(), &format!("{}bounds:{}", pre, key), || format!("{} {:?} -> {}{:?} ({:e} of the component range outside the documented bounds), and none of the {} colours within {:e} of it in every {} channel is within the bounds either; closest: {:?} -> {}{:?}, still {:e} outside", sp.targets[t].name, src, sp.name, x, over, N_WITNESS, tol, if sp.kind == Kind::Hex { "RGB" } else { "linear RGB" }, w, sp.name, xw, over_w));
             if finite {
                 // the literal component reading, for the record (and, at the poles of HSLuv, as a clause: there the published reference
                 // returns S = 0 by an explicit guard, so the bound on the *component* does not depend on how a tolerance is transported)
                 acc.maxi(&format!("bounds-overshoot-literal{}:{}", sfx, key), over);
                 if sp.kind == Kind::Hsluv && known.is_some() {
-                    acc.check(over <= tol, &format!("{}bounds-literal:{}", pre, key), || format!("{} {:?} -> Hsluv{:?}: saturation {:e} of its range above the documented maximum (the HSLuv reference returns S = 0 for L > 99.9999999 and L < 1e-8)", TARGETS[t], src, x, over));
+                    acc.check(over <= tol, &format!("{}bounds-literal:{}", pre, key), || format!("{} {:?} -> Hsluv{:?}: saturation {:e} of its range above the documented maximum (the HSLuv reference returns S = 0 for L > 99.9999999 and L < 1e-8)", sp.targets[t].name, src, x, over));
                 }
                 if sp.kind != Kind::Hex && over > 0.0 {
                     // distance, in linear RGB, between the colour and the colour with the same hue and the components clamped to the bounds
                     let (rc, _) = (sp.to_rgb[t])(clamp_to_bounds(sp, &x), &mut None);
-                    let lc = lin_of(t, &to64(&rc));
+                    let lc = lin_of(&sp.targets[t], &to64(&rc));
                     let e_clamped = if lc.iter().any(|v| v.is_nan()) { f64::NAN } else { (0..3).fold(0.0f64, |m, i| m.max((lc[i] - lin_src[i]).abs())) };
                     acc.maxi(&format!("clamped-to-bounds-distance-linear-rgb{}:{}", sfx, key), e_clamped);
                 }
                 // ---- and back
                 acc.maxi(&format!("roundtrip-err-linear-rgb{}:{}", sfx, key), e_rt);
-                acc.check(e_rt <= tol_rt, &format!("{}roundtrip:{}", pre, key), || format!("{} {:?} -> {}{:?} -> {} {:?} (linear-RGB distance {:e}, tolerance {:e})", TARGETS[t], src, sp.name, x, TARGETS[t], back, e_rt, tol_rt));
+                acc.check(e_rt <= tol_rt, &format!("{}roundtrip:{}", pre, key), || format!("{} {:?} -> {}{:?} -> {} {:?} (linear-RGB distance {:e}, tolerance {:e})", sp.targets[t].name, src, sp.name, x, sp.targets[t].name, back, e_rt, tol_rt));
             }
             // what the published reference does with the same colour (f64): its own overshoot, for the record
             if sp.kind == Kind::Ok && known.is_none() && t == 1 && T::TAG == "f64" {
                 let lab = spec::linear_srgb_to_oklab(lin_src);
                 if lab[1].hypot(lab[2]) > 1e-6 && lab[0] > 1e-6 && lab[0] < 1.0 - 1e-6 {
-                    let r = match sp.name { "Okhsl" => spec::oklab_to_okhsl(lab), "Okhsv" => spec::oklab_to_okhsv(lab), _ => spec::okhsv_to_okhwb(spec::oklab_to_okhsv(lab)) };
+                    let r = match base_name(sp.name) { "Okhsl" => spec::oklab_to_okhsl(lab), "Okhsv" => spec::oklab_to_okhsv(lab), _ => spec::okhsv_to_okhwb(spec::oklab_to_okhsv(lab)) };
                     acc.maxi(&format!("bounds-overshoot-literal-of-reference-ok_color.h:{}", sp.name), overshoot(sp, &r));
                 }
             }
@@ -417,7 +425,7 @@ fn reverse_chunk<T: Fl + Send + Sync>(sp: &Space<T>, srcs: &[(usize, [f64; 3])],
     acc
 }
 
-fn reverse<T: Fl + Send + Sync>(out: &mut Out, sp: &Space<T>, srcs: &[[f64; 3]], stride: usize, threads: usize) {
+pub(crate) fn reverse<T: Fl + Send + Sync>(out: &mut Out, sp: &Space<T>, srcs: &[[f64; 3]], stride: usize, threads: usize) {
     let mut all: Vec<[f64; 3]> = srcs.to_vec();
     // the corners of the cube approached in ulps of T: channels at 1 / one ulp below 1, at 0 / the smallest subnormal / the smallest normal
     let (p1, p2) = (T::of(1.0).nudge(-1).to64(), T::of(1.0).nudge(-2).to64());
@@ -454,42 +462,42 @@ macro_rules! conv {
 }
 
 macro_rules! family { ($fname:ident, $t:ty) => {
-fn $fname() -> Vec<Space<$t>> {
+pub(crate) fn $fname() -> Vec<Space<$t>> {
     type T = $t;
     type S = encoding::Srgb;
     type L = Linear<encoding::Srgb>;
     vec![
-        Space { name: "Hsv", kind: Kind::Hex, scale: 1.0, hwb: false, slack: 0.0,
+        Space { name: "Hsv", kind: Kind::Hex, scale: 1.0, hwb: false, slack: 0.0, targets: TARGETS,
             to_rgb: [conv!(T; Hsv<S, T> => Rgb<S, T>; Hsv<S, T> => Rgb<S, T>: "Hsv:Srgb", "Rgb:Srgb"),
                      conv!(T; Hsv<L, T> => Rgb<L, T>; Hsv<L, T> => Rgb<L, T>: "Hsv:LinSrgb", "Rgb:LinSrgb")],
             from_rgb: [conv!(T; Rgb<S, T> => Hsv<S, T>; Rgb<S, T> => Hsv<S, T>: "Rgb:Srgb", "Hsv:Srgb"),
                        conv!(T; Rgb<L, T> => Hsv<L, T>; Rgb<L, T> => Hsv<L, T>: "Rgb:LinSrgb", "Hsv:LinSrgb")] },
-        Space { name: "Hsl", kind: Kind::Hex, scale: 1.0, hwb: false, slack: 0.0,
+        Space { name: "Hsl", kind: Kind::Hex, scale: 1.0, hwb: false, slack: 0.0, targets: TARGETS,
             to_rgb: [conv!(T; Hsl<S, T> => Rgb<S, T>; Hsl<S, T> => Rgb<S, T>: "Hsl:Srgb", "Rgb:Srgb"),
                      conv!(T; Hsl<L, T> => Rgb<L, T>; Hsl<L, T> => Rgb<L, T>: "Hsl:LinSrgb", "Rgb:LinSrgb")],
             from_rgb: [conv!(T; Rgb<S, T> => Hsl<S, T>; Rgb<S, T> => Hsl<S, T>: "Rgb:Srgb", "Hsl:Srgb"),
                        conv!(T; Rgb<L, T> => Hsl<L, T>; Rgb<L, T> => Hsl<L, T>: "Rgb:LinSrgb", "Hsl:LinSrgb")] },
-        Space { name: "Hwb", kind: Kind::Hex, scale: 1.0, hwb: true, slack: 0.0,
+        Space { name: "Hwb", kind: Kind::Hex, scale: 1.0, hwb: true, slack: 0.0, targets: TARGETS,
             to_rgb: [conv!(T; Hwb<S, T> => Rgb<S, T>; Hwb<S, T> => Hsv<S, T>: "Hwb:Srgb", "Hsv:Srgb"; Hsv<S, T> => Rgb<S, T>: "Hsv:Srgb", "Rgb:Srgb"),
                      conv!(T; Hwb<L, T> => Rgb<L, T>; Hwb<L, T> => Hsv<L, T>: "Hwb:LinSrgb", "Hsv:LinSrgb"; Hsv<L, T> => Rgb<L, T>: "Hsv:LinSrgb", "Rgb:LinSrgb")],
             from_rgb: [conv!(T; Rgb<S, T> => Hwb<S, T>; Rgb<S, T> => Hsv<S, T>: "Rgb:Srgb", "Hsv:Srgb"; Hsv<S, T> => Hwb<S, T>: "Hsv:Srgb", "Hwb:Srgb"),
                        conv!(T; Rgb<L, T> => Hwb<L, T>; Rgb<L, T> => Hsv<L, T>: "Rgb:LinSrgb", "Hsv:LinSrgb"; Hsv<L, T> => Hwb<L, T>: "Hsv:LinSrgb", "Hwb:LinSrgb")] },
-        Space { name: "Okhsv", kind: Kind::Ok, scale: 1.0, hwb: false, slack: 1e-6,
+        Space { name: "Okhsv", kind: Kind::Ok, scale: 1.0, hwb: false, slack: 1e-6, targets: TARGETS,
             to_rgb: [conv!(T; Okhsv<T> => Rgb<S, T>; Okhsv<T> => Oklab<T>: "Okhsv", "Oklab"; Oklab<T> => Rgb<S, T>: "Oklab", "Rgb:Srgb"),
                      conv!(T; Okhsv<T> => Rgb<L, T>; Okhsv<T> => Oklab<T>: "Okhsv", "Oklab"; Oklab<T> => Rgb<L, T>: "Oklab", "Rgb:LinSrgb")],
             from_rgb: [conv!(T; Rgb<S, T> => Okhsv<T>; Rgb<S, T> => Oklab<T>: "Rgb:Srgb", "Oklab"; Oklab<T> => Okhsv<T>: "Oklab", "Okhsv"),
                        conv!(T; Rgb<L, T> => Okhsv<T>; Rgb<L, T> => Oklab<T>: "Rgb:LinSrgb", "Oklab"; Oklab<T> => Okhsv<T>: "Oklab", "Okhsv")] },
-        Space { name: "Okhsl", kind: Kind::Ok, scale: 1.0, hwb: false, slack: 0.0,
+        Space { name: "Okhsl", kind: Kind::Ok, scale: 1.0, hwb: false, slack: 0.0, targets: TARGETS,
             to_rgb: [conv!(T; Okhsl<T> => Rgb<S, T>; Okhsl<T> => Oklab<T>: "Okhsl", "Oklab"; Oklab<T> => Rgb<S, T>: "Oklab", "Rgb:Srgb"),
                      conv!(T; Okhsl<T> => Rgb<L, T>; Okhsl<T> => Oklab<T>: "Okhsl", "Oklab"; Oklab<T> => Rgb<L, T>: "Oklab", "Rgb:LinSrgb")],
             from_rgb: [conv!(T; Rgb<S, T> => Okhsl<T>; Rgb<S, T> => Oklab<T>: "Rgb:Srgb", "Oklab"; Oklab<T> => Okhsl<T>: "Oklab", "Okhsl"),
                        conv!(T; Rgb<L, T> => Okhsl<T>; Rgb<L, T> => Oklab<T>: "Rgb:LinSrgb", "Oklab"; Oklab<T> => Okhsl<T>: "Oklab", "Okhsl")] },
-        Space { name: "Okhwb", kind: Kind::Ok, scale: 1.0, hwb: true, slack: 0.0,
+        Space { name: "Okhwb", kind: Kind::Ok, scale: 1.0, hwb: true, slack: 0.0, targets: TARGETS,
             to_rgb: [conv!(T; Okhwb<T> => Rgb<S, T>; Okhwb<T> => Okhsv<T>: "Okhwb", "Okhsv"; Okhsv<T> => Oklab<T>: "Okhsv", "Oklab"; Oklab<T> => Rgb<S, T>: "Oklab", "Rgb:Srgb"),
                      conv!(T; Okhwb<T> => Rgb<L, T>; Okhwb<T> => Okhsv<T>: "Okhwb", "Okhsv"; Okhsv<T> => Oklab<T>: "Okhsv", "Oklab"; Oklab<T> => Rgb<L, T>: "Oklab", "Rgb:LinSrgb")],
             from_rgb: [conv!(T; Rgb<S, T> => Okhwb<T>; Rgb<S, T> => Oklab<T>: "Rgb:Srgb", "Oklab"; Oklab<T> => Okhsv<T>: "Oklab", "Okhsv"; Okhsv<T> => Okhwb<T>: "Okhsv", "Okhwb"),
                        conv!(T; Rgb<L, T> => Okhwb<T>; Rgb<L, T> => Oklab<T>: "Rgb:LinSrgb", "Oklab"; Oklab<T> => Okhsv<T>: "Oklab", "Okhsv"; Okhsv<T> => Okhwb<T>: "Okhsv", "Okhwb")] },
-        Space { name: "Hsluv", kind: Kind::Hsluv, scale: 100.0, hwb: false, slack: 0.0,
+        Space { name: "Hsluv", kind: Kind::Hsluv, scale: 100.0, hwb: false, slack: 0.0, targets: TARGETS,
             to_rgb: [conv!(T; Hsluv<D65, T> => Rgb<S, T>; Hsluv<D65, T> => Lchuv<D65, T>: "Hsluv:D65", "Lchuv:D65"; Lchuv<D65, T> => Luv<D65, T>: "Lchuv:D65", "Luv:D65"; Luv<D65, T> => Xyz<D65, T>: "Luv:D65", "Xyz:D65"; Xyz<D65, T> => Rgb<S, T>: "Xyz:D65", "Rgb:Srgb"),
                      conv!(T; Hsluv<D65, T> => Rgb<L, T>; Hsluv<D65, T> => Lchuv<D65, T>: "Hsluv:D65", "Lchuv:D65"; Lchuv<D65, T> => Luv<D65, T>: "Lchuv:D65", "Luv:D65"; Luv<D65, T> => Xyz<D65, T>: "Luv:D65", "Xyz:D65"; Xyz<D65, T> => Rgb<L, T>: "Xyz:D65", "Rgb:LinSrgb")],
             from_rgb: [conv!(T; Rgb<S, T> => Hsluv<D65, T>; Rgb<S, T> => Xyz<D65, T>: "Rgb:Srgb", "Xyz:D65"; Xyz<D65, T> => Luv<D65, T>: "Xyz:D65", "Luv:D65"; Luv<D65, T> => Lchuv<D65, T>: "Luv:D65", "Lchuv:D65"; Lchuv<D65, T> => Hsluv<D65, T>: "Lchuv:D65", "Hsluv:D65"),
@@ -521,5 +529,7 @@ pub fn run(tier: &str, seed: u64, dir: &str) {
     let srcs = rgb_sources(&mut rng, &lattice, if thorough { 200_000 } else { 4_000 });
     run_t::<f32>(&mut out, &spaces_f32(), &srcs, tier, threads);
     run_t::<f64>(&mut out, &spaces_f64(), &srcs, tier, threads);
+    // coverage audit: RGB standards, wrapper / collection forms, entry points and hue ranges the clauses above do not drive (`c15_more.rs`)
+    crate::c15_more::run_more(&mut out, &mut rng, &srcs, tier, threads);
     out.finish(dir, &format!("\"exhaustive\":{{\"hue-grid\":\"{} hues x {}-point component grids (bounds included) x 7 spaces x f32/f64 x Srgb/LinSrgb\"}}", if thorough { 36000 } else { 720 }, if thorough { 101 } else { 21 }));
 }
